@@ -55,7 +55,7 @@ func newFnTrans(w *World, fn *ssa.Function, con *Contract) *FnTrans {
 		edgeCond: map[[2]int]string{}, idxTerms: map[string]bool{}, elemIdx: map[string]bool{}, nameCnt: map[string]int{},
 		unknownCalls: map[string]int{}, assumedUsed: map[string]bool{}, contractsUsed: map[string]bool{}, params: map[string]Val{},
 		siteCount: map[string]int{}, strLits: map[string]string{}, typeTags: map[string]int{}, compSorts: map[string]string{},
-		constArrs: map[string]string{}, knownRefs: map[string]bool{}, strPairs: map[string]bool{}, strTerms: map[string]bool{}, skCache: map[string]string{}, f64bitsCache: map[string]string{}, subRefSeen: map[string]bool{}, privateRefs: map[string]bool{}, globalsUsed: map[string]bool{}, intrinsicsUsed: map[string]bool{}, pureCalls: map[string]int{}, sitesMatched: map[*SiteSpec]bool{}}
+		constArrs: map[string]string{}, constElemSort: map[string]string{}, knownRefs: map[string]bool{}, strPairs: map[string]bool{}, strTerms: map[string]bool{}, skCache: map[string]string{}, f64bitsCache: map[string]string{}, subRefSeen: map[string]bool{}, privateRefs: map[string]bool{}, globalsUsed: map[string]bool{}, intrinsicsUsed: map[string]bool{}, pureCalls: map[string]int{}, sitesMatched: map[*SiteSpec]bool{}}
 	if con != nil {
 		t.mode = con.Mode
 	}
